@@ -181,6 +181,120 @@ def ack_resched_extend(op: int, d1: int, d2: int, a1: int, a2: int, v1: int, t: 
             w.close()
 
 
+OPS = ["poll", "ack", "reschedule", "extend_lock", "sweep", "move_to_dlq", "replay_dlq"]
+
+
+def _op_sequence(name: str, ops: list, dts: list, a0, m, delay) -> bool:
+    # One message driven through a solver-chosen sequence of queue operations with symbolic time
+    # steps, against a reference model of (place, deliver_at, locked_until, attempts); the worker
+    # keeps the handle of its last successful poll and uses it for ack / reschedule / extend.
+    with hx.Path(name) as P:
+        w = _world([_row(1, T0, False, 0, a0, m, 0, "x")], qmax=m)
+        try:
+            q = w.queue
+            now = T0 + 1000
+            place, d, lk, a, rid, rowmax = "q", T0, None, a0, 1, m
+            held = None
+            trace = []
+            for oi, dt in zip(ops, dts):
+                op = OPS[hx.pick(oi, len(OPS))]
+                now = now + dt
+                symdb.CLOCK.now = now
+                with hx.native():
+                    trace.append(op)
+                if op == "poll":
+                    vis = place == "q" and _sec(d) <= _sec(now) and (lk is None or _sec(lk) < _sec(now)) and a < m
+                    got = q.poll_one()
+                    if (got is not None) != bool(vis):
+                        return P.fail("C08/sequence/%s" % ("deliverable_message_not_returned" if vis else "undeliverable_message_returned"), {"ops": trace})
+                    if got is not None:
+                        a, lk, held = a + 1, now + LOCK_MS, got
+                        if got.attempts != a or int(got.message_id) != rid:
+                            return P.fail("C08/sequence/polled_message_metadata_wrong", {"ops": trace})
+                elif op == "ack":
+                    if held is not None:
+                        q.ack(held)
+                        if place == "q" and int(held.message_id) == rid:
+                            place = "acked"
+                        held = None
+                elif op == "reschedule":
+                    if held is not None:
+                        q.reschedule(held, timedelta(milliseconds=delay))
+                        if place == "q" and int(held.message_id) == rid:
+                            d, lk = now + delay, None
+                        held = None
+                elif op == "extend_lock":
+                    if held is not None:
+                        ok = q.extend_lock(held)
+                        here = place == "q" and int(held.message_id) == rid
+                        if bool(ok) != here:
+                            return P.fail("C08/sequence/extend_lock_result_wrong", {"ops": trace})
+                        if here:
+                            lk = now + LOCK_MS
+                elif op == "sweep":
+                    n = q.check_and_move_expired()
+                    exp = place == "q" and a >= rowmax
+                    if (n == 1) != bool(exp) or n > 1:
+                        return P.fail("C08/sequence/sweep_moves_wrong_rows", {"ops": trace})
+                    if exp:
+                        place = "dlq"
+                elif op == "move_to_dlq":
+                    q.move_to_dlq(rid, "boom")
+                    if place == "q":
+                        place = "dlq"
+                else:
+                    ents = w.table("queue_messages_dlq")
+                    did = ents[0]["id"] if ents else 1
+                    ok = q.replay_dlq(did)
+                    if bool(ok) != (place == "dlq"):
+                        return P.fail("C08/sequence/replay_result_wrong", {"ops": trace})
+                    if place == "dlq":
+                        place, a, lk, rowmax = "q", 0, None, 10
+                        d = (now // 1000) * 1000
+                        rid = w.table("queue_messages")[0]["id"]
+                # compare with the real tables
+                qrows = w.table("queue_messages")
+                drows = w.table("queue_messages_dlq")
+                with hx.native():
+                    shape = (len(qrows), len(drows))
+                want_shape = (1, 0) if place == "q" else ((0, 1) if place == "dlq" else (0, 0))
+                if shape != want_shape:
+                    return P.fail("C08/sequence/message_in_wrong_place", {"ops": trace, "expected": place, "queue_rows": shape[0], "dlq_rows": shape[1]})
+                if place == "q":
+                    r = qrows[0]
+                    if r["attempts"] != a:
+                        return P.fail("C08/sequence/attempts_differ_from_model", {"ops": trace})
+                    if (r["locked_until"] is None) != (lk is None) or (lk is not None and r["locked_until"].ms != lk):
+                        return P.fail("C08/sequence/lock_differs_from_model", {"ops": trace})
+                    if _sec(r["deliver_at"].ms) != _sec(d):
+                        return P.fail("C08/sequence/deliver_at_differs_from_model", {"ops": trace})
+                elif place == "dlq":
+                    if drows[0]["attempts"] != a:
+                        return P.fail("C08/sequence/dlq_attempts_differ_from_model", {"ops": trace})
+            with hx.native():
+                P.reached(tuple(trace) + (place,))
+            return True
+        finally:
+            w.close()
+
+
+def op_sequence2(o1: int, o2: int, o3: int, dt1: int, dt2: int, dt3: int, a0: int, m: int, delay: int) -> bool:
+    """
+    pre: 0 <= dt1 <= 130000 and 0 <= dt2 <= 130000 and 0 <= dt3 <= 130000 and 0 <= a0 <= 4 and 1 <= m <= 4 and 0 <= delay <= 130000
+    post: _
+    """
+    # poll first (so that the worker holds a handle), then two arbitrary operations
+    return _op_sequence("op_sequence2", [0, o2, o3], [dt1, dt2, dt3], a0, m, delay)
+
+
+def op_sequence4(o1: int, o2: int, o3: int, o4: int, dt1: int, dt2: int, dt3: int, dt4: int, a0: int, m: int, delay: int) -> bool:
+    """
+    pre: 0 <= dt1 <= 130000 and 0 <= dt2 <= 130000 and 0 <= dt3 <= 130000 and 0 <= dt4 <= 130000 and 0 <= a0 <= 4 and 1 <= m <= 4 and 0 <= delay <= 130000
+    post: _
+    """
+    return _op_sequence("op_sequence4", [o1, o2, o3, o4], [dt1, dt2, dt3, dt4], a0, m, delay)
+
+
 class _Die(BaseException):
     pass
 
@@ -327,13 +441,16 @@ PLAN = [
     ("claim_sequential", "quick", 280),
     ("ack_resched_extend", "quick", 280),
     ("conservation", "quick", 280),
+    ("op_sequence2", "quick", 280),
+    ("op_sequence4", "thorough", 3000),
 ]
 
 META = {
     "functions": ["src/stabilize/queue/sqlite/queue.py:SqliteQueue.poll_one/ack/reschedule/extend_lock/push",
                   "src/stabilize/queue/sqlite/dlq.py:move_to_dlq/replay_dlq/check_and_move_expired", "src/stabilize/queue/sqlite/serialization.py:deserialize_message"],
     "bounds": ["1-2 queue rows + 1 DLQ row; deliver_at, locked_until, clock instants symbolic in a 200 s window at ms resolution (SQL compares at whole seconds); attempts 0..12, max_attempts 1..12, version 0..5 symbolic",
-               "two pollers: the nested interleaving (B between A's SELECT and UPDATE) and the sequential one with an arbitrary delay; crash = rollback at the operation's commit; DLQ sweep raced by a second sweeper / move_to_dlq / the holder's ack before every statement of the sweep"],
+               "operation sequences: one message through poll + 2 (thorough: 4 arbitrary) operations out of {poll, ack, reschedule, extend_lock, sweep, move_to_dlq, replay_dlq} with symbolic time steps (<= 130 s each), attempts 0..4, max_attempts 1..4, against a reference model of (place, deliver_at, locked_until, attempts)",
+               "two pollers: the nested interleaving (B between A's SELECT and UPDATE) and the sequential one with an arbitrary delay; crash = the process dies at its n-th commit (n symbolic), earlier commits durable; DLQ sweep raced by a second sweeper / move_to_dlq / the holder's ack before every statement of the sweep"],
     "stubs": ["SymDB instead of SQLite (validated differentially by vf/validate_symdb.py on every run)", "clock: datetime.now and SQL datetime('now') read one symbolic instant set by the harness",
               "ids: uuid4() replaced by a counter"],
     "assumptions": ["queue-level max_attempts equals the row's max_attempts in the claim lemmas (DESIGN O2)", "host time zone UTC"],
